@@ -524,6 +524,9 @@ class Batch:
 NUM_TOKENS = ["1", "12", ".", "5", "em", "px", "ch", "in", "pt", "%", " ", "x", ""]
 CSS_PROPS = ["width", "height", "min-width", "max-height"]
 CSS_UNITS = ["em", "px", "ch", "pt", "rem"]
+# junk and broken declarations (missing unit, unknown property, unknown unit, stray tokens)
+CSS_JUNK = ["junk ", "x ", "color: red; ", "width: 20; ", "line-height: 2em; ", "height: 2 em; ",
+            "width 20ch; ", "width: 20xy; ", "12 ", "! "]
 
 
 def tok_number(toks):
@@ -731,6 +734,35 @@ def run(chk, runner_ok):
             lv = rng.choice(["wide", "12", "30em", "", "auto"])
             expect_error = True
         ccases.append((rv, lv, rspec, lspec, expect_error))
+    # junk or a broken declaration in a gap of an otherwise clean localized spec: before the first
+    # declaration, between two, after the last — for EVERY reference spec list of the token space.
+    # Each piece has a non-blank, non-semicolon character and ends with a blank or a semicolon, so
+    # it cannot fuse with its neighbours into a valid declaration: the value is unparseable by
+    # construction (line-height contains a valid `height: 2em`; the `line-` before it is the junk).
+    njunk = 0
+    for rspec in speclists:
+        rv = render_specs(rspec, rng, rng.random() < 0.5)
+        bodies = [list(rspec)]
+        other = rng.choice(speclists)
+        bodies.append(other if len(other) > 1 else other + [rng.choice(triples)])
+        for lspec in bodies:
+            if len(lspec) < 2:
+                lspec = lspec + [rng.choice(triples)]
+            decls = [p_ + rng.choice(["", " "]) + ":" + rng.choice(["", " "]) + n_ + u_ for p_, n_, u_ in lspec]
+            for piece in CSS_JUNK:
+                for where in ("before", "between", "after"):
+                    gaps = [rng.choice(["", " "])] + [rng.choice([";", "; ", " ;\n"]) for _ in decls[1:]] + \
+                        [rng.choice(["", ";", " ; "])]
+                    gi = {"before": 0, "between": rng.randint(1, len(decls) - 1), "after": len(decls)}[where]
+                    # the piece goes to the end of the gap (after its semicolon); after the last
+                    # declaration a separating semicolon is put in front of it
+                    gaps[gi] = (gaps[gi] if gi < len(decls) else "; ") + piece
+                    lv = gaps[0] + "".join(d + g for d, g in zip(decls, gaps[1:]))
+                    ccases.append((rv, lv, rspec, lspec, "junk-" + where))
+                    njunk += 1
+    chk.notes.append(f"DTD-CHECK-numcss: {njunk} localized specs with one of {len(CSS_JUNK)} junk pieces / broken "
+                     f"declarations before, between or after the declarations, for each of the {len(speclists)} "
+                     "reference spec lists; expected: the css error")
     for (rv, lv, rspec, lspec, expect_error), rent, lent, checker in pairs_in_files(ccases):
         info = {"ref": rv, "l10n": lv}
         res, raw = b.add(info, checker, rent, lent)
@@ -742,8 +774,9 @@ def run(chk, runner_ok):
             continue
         if expect_error:
             if css != [("error", "reference is a CSS spec")]:
-                chk.fail("css-unparseable-not-error", info, css)
-            chk.hist("css_verdict", "error")
+                chk.fail("css-" + expect_error + "-not-error" if isinstance(expect_error, str)
+                         else "css-unparseable-not-error", info, css)
+            chk.hist("css_verdict", expect_error if isinstance(expect_error, str) else "error")
         else:
             same = spec_map(rspec) == spec_map(lspec)
             errs = [x for x in css if x[0] == "error"]
@@ -1034,6 +1067,9 @@ def replay(chk, path):
             rc |= bool(errs)
         elif sig.startswith("missed:"):
             rc |= not errs
+        elif sig.startswith("css-junk") or sig == "css-unparseable-not-error":
+            rc |= isinstance(got, str) or \
+                [(i[0], i[2]) for i in got if i[3] == "css"] != [("error", "reference is a CSS spec")]
         else:
             rc = 1
     for d in data.get("disagreements", []):
